@@ -64,6 +64,8 @@ pub mod expr {
     impl Expr {
         #[verifier::external_body]
         pub fn span(&self) -> diagn::Span { unimplemented!() }
+        #[verifier::external_body]
+        pub fn returned_value_span(&self) -> diagn::Span { unimplemented!() }
     }
     impl EvalContext {
         #[verifier::external_body]
@@ -86,8 +88,12 @@ pub mod asm {
     pub struct RuledefMap { _p: u8 }
     #[verifier::external_body]
     pub struct Function { _p: u8 }
-    #[verifier::external_body]
-    pub struct Rule { _p: u8 }
+    /// stand-in for asm::Rule: only the fields the verified functions read
+    pub struct Rule { pub pattern_span: diagn::Span, pub expr: expr::Expr }
+    impl Ruledef {
+        #[verifier::external_body]
+        pub fn get_rule(&self, rule_ref: util::ItemRef<Rule>) -> &Rule { unimplemented!() }
+    }
     pub type InstructionMatches = Vec<InstructionMatch>;
     #[verifier::external_body]
     pub struct ItemDecls { _p: u8 }
